@@ -293,6 +293,27 @@ def runtime_crosscheck(ctx, facts):
         ctx.broke('extract', 'DeliveryConsts', f'get_candidates on a plain object raised {type(e).__name__}: {e}')
 
 
+def zoo_cases_for_model(ctx):
+    """ zoo base simulations the model can follow step by step: year-unit entries on a plain numeric grid (the protocol's year grid is
+        start + i*dt) whose diseases have at most 9 Boolean states (state arrays are numbered 10*disease + state) """
+    from harness import zoo
+    from harness.props import c20_zoo as Z
+    out = []
+    for k, (name, cfg) in enumerate(zoo.configs()):
+        if not (cfg.get('unit', 'year') == 'year' and isinstance(cfg.get('start'), (int, float)) and float(cfg['dur'] / cfg['dt']).is_integer()):
+            continue
+        try:
+            c = Z.probe_for(k, name, cfg)
+        except Exception as e:
+            ctx.count('zoo_exceptions'); ctx.notes['last_zoo_exception'] = f'{name}: {type(e).__name__}: {e}'; continue
+        if isinstance(c, tuple): continue
+        per = {}
+        for d, st in c['sim']['zoo_states']: per[d] = per.get(d, 0) + 1
+        if any(v > 9 for v in per.values()): continue
+        out.append(c); ctx.count('zoo_model_runs')
+    return out
+
+
 def correspond(ctx):
     facts = facts_of(ctx)
     runtime_crosscheck(ctx, facts)
@@ -300,10 +321,17 @@ def correspond(ctx):
     kinds = ['vx', 'vx', 'screen', 'triage', 'treat', 'vx', 'screen', 'treat']
     all_lines = []; per = []
     cases = I.fixed_cases() + I.fixed_cases_r3() + [I.gen_case_r3(ctx.rng, kinds[k % len(kinds)]) for k in range(ncases)]
+    cases += zoo_cases_for_model(ctx)
     for case in cases:
         try:
-            res = I.run_case(case)
+            if 'cfg' in case:
+                from harness.props import c20_zoo
+                res = c20_zoo.run_zoo_case(case)
+            else:
+                res = I.run_case(case)
         except Exception as e:
+            if 'cfg' in case:
+                ctx.count('zoo_exceptions'); ctx.notes['last_zoo_exception'] = f"{case.get('zoo')}: {type(e).__name__}: {e}"; continue
             ctx.broke('correspondence', 'C20.harness', f'running a generated case raised {type(e).__name__}: {e}', data=dict(case=case))
             continue
         res.pop('sim', None)
@@ -377,7 +405,12 @@ def window_excess(case, res, ti):
 def oracle_case(case, res=None):
     """ Evaluate C20 on one real run.  -> list of dict(signature, what, ti) """
     fails = []
-    res = res if res is not None else I.run_case(case)
+    if res is None:
+        if 'cfg' in case:                       # a zoo base simulation with a probed delivery (c20_zoo.py)
+            from harness.props import c20_zoo
+            res = c20_zoo.run_zoo_case(case)
+        else:
+            res = I.run_case(case)
     if res['init_err']:
         return fails
     kind = case['kind']; simc = case['sim']; dt = simc['dt']
@@ -563,6 +596,7 @@ def search(ctx):
     for b in ctx.broken:
         if b['kind'] == 'correspondence' and isinstance(b.get('data'), dict) and 'case' in b['data']:
             cases.insert(0, b['data']['case'])
+    search_zoo(ctx)
     for c in cases:
         try:
             res = I.run_case(c)
@@ -574,6 +608,29 @@ def search(ctx):
         ctx.count('oracle_runs'); ctx.count('oracle_steps', len(res['log']))
         for f in fails:
             ctx.fail(f['signature'], f['what'], dict(case=c, ti=f['ti'], signature=f['signature']))
+
+
+def search_zoo(ctx):
+    """ every entry of the shared zoo as the base simulation of one probed delivery, evaluated by the same oracle """
+    from harness import zoo
+    from harness.props import c20_zoo as Z
+    skipped = {}
+    for k, (name, cfg) in enumerate(zoo.configs()):
+        try:
+            c = Z.probe_for(k, name, cfg)
+            if isinstance(c, tuple):
+                skipped[name] = c[1]; ctx.count('zoo_skipped'); continue
+            res = Z.run_zoo_case(c)
+            fails = oracle_case(c, res)
+        except Exception as e:
+            ctx.count('zoo_exceptions'); ctx.notes['last_zoo_exception'] = f'{name}: {type(e).__name__}: {e}'; continue
+        ctx.count('zoo_runs'); ctx.count('oracle_steps', len(res['log']))
+        ctx.count('zoo_delivery_steps', sum(1 for e in res['log'] if e.get('ret')))
+        if res['init_err']:
+            ctx.count('zoo_init_rejected'); ctx.notes.setdefault('zoo_init_rejected', {})[name] = f"{res['init_err']}: {res.get('init_msg')}"
+        for f in fails:
+            ctx.fail(f['signature'], f'[zoo:{name}] ' + f['what'], dict(case=c, ti=f['ti'], signature=f['signature']))
+    if skipped: ctx.notes['zoo_skipped'] = skipped
 
 
 def replay(ctx, data):
